@@ -175,15 +175,18 @@ with index_simple (fuel : nat) (sv : simple) : M mty :=
     | SClassVal i args r =>
       loc <- here (i_rng i) ;;
       s <- state ;;
-      cid <- lift (find_class s (i_name i)) ;;
-      add_reference (SyRecord cid) loc ;;
-      s1 <- state ;;
-      rc <- lift (nthN (s_recs s1) cid) ;;
-      let targs := targ_leaves s1 (rc_targs rc) in
-      avs <- mapM_opt (index_arg n) args ;;
-      s2 <- state ;;
-      emit (check_template_args s2 targs avs r) ;;
-      ret (MRecord cid (i_name i))
+      match find_class s (i_name i) with
+      | None => error loc DClassNotFound ;; none
+      | Some cid =>
+        add_reference (SyRecord cid) loc ;;
+        s1 <- state ;;
+        rc <- lift (nthN (s_recs s1) cid) ;;
+        let targs := targ_leaves s1 (rc_targs rc) in
+        avs <- mapM_opt (index_arg n) args ;;
+        s2 <- state ;;
+        emit (check_template_args s2 targs avs r) ;;
+        ret (MRecord cid (i_name i))
+      end
     | SBang op annot vs r => index_bang n op annot vs r
     | SCond vs => iterM (index_value n) vs ;; none
     end
@@ -360,8 +363,8 @@ Definition index_targ (fuel : nat) (a : targ) : M unit :=
 (** impl Indexable for ast::BodyItem (FieldDef, FieldLet, Defvar, Assert, Dump) *)
 Definition index_defvar (fuel : nat) (i : ident) (v : value) : M unit :=
   loc <- here (i_rng i) ;;
-  typ <- index_value fuel v ;;
-  scopes_add_variable (mkLeaf LVar (i_name i) typ false loc).
+  o <- try_ (index_value fuel v) ;;
+  scopes_add_variable (mkLeaf LVar (i_name i) (match o with Some t => t | None => MUnknown end) false loc).
 
 Definition index_item (fuel : nat) (it : item) : M unit :=
   match it with
@@ -456,17 +459,17 @@ Section Statements.
       | SDefset t i b =>
         loc <- here (i_rng i) ;;
         typ <- index_ty t ;;
-        did <- add_leaf (mkLeaf LDefset (i_name i) typ false loc) ;;
+        did <- add_defset (mkLeaf LDefset (i_name i) typ false loc) ;;
         scoped (KDefset did) (iterM (index_stmt n) b)
       | SDefvar i v => index_defvar n i v
       | SDump v => index_value n v ;; none
       | SForeach i init b =>
         loc <- here (i_rng i) ;;
-        typ <- match init with
-               | FeRange => ret MInt
-               | FeValue v => t <- index_value n v ;; lift (element_typ t)
-               end ;;
-        vid <- add_leaf (mkLeaf LVar (i_name i) typ false loc) ;;
+        o <- try_ (match init with
+                   | FeRange => ret MInt
+                   | FeValue v => t <- index_value n v ;; lift (element_typ t)
+                   end) ;;
+        vid <- add_leaf (mkLeaf LVar (i_name i) (match o with Some t => t | None => MUnknown end) false loc) ;;
         scoped (KForeach (i_name i) vid) (iterM (index_stmt n) b)
       | SIf c th el =>
         index_value n c ;;
